@@ -102,9 +102,7 @@ func Load(opt LoadOptions) (*Prog, error) {
 	if len(pkgs) > 0 {
 		p.Fset = pkgs[0].Fset
 	}
-	for _, pk := range pkgs {
-		p.ByPath[pk.PkgPath] = pk
-	}
+	packages.Visit(pkgs, nil, func(pk *packages.Package) { p.ByPath[pk.PkgPath] = pk }) // incl. dependencies
 	// index module functions (including methods and closures)
 	for _, pk := range pkgs {
 		sp := prog.Package(pk.Types)
